@@ -14,6 +14,7 @@
 import OrxPar.Lemmas.Run
 import OrxPar.Lemmas.RunFair
 import OrxPar.Lemmas.Logged
+import OrxPar.Lemmas.SeqConsume
 namespace OrxPar
 
 /-- **C10 (no pull after publication).** for every continuation schedule -/
@@ -70,6 +71,18 @@ theorem C10_seq (s : Src) (ops : List Op) (q : Val → Bool)
 theorem C10_seq_prefix (P : Par) (q : Val → Bool) :
     P.seqFindLog q <+: (P.stream.filterW (callW stPred q)).log :=
   events_find_seq P q
+
+/-- **C10 (sequential mode: the source is consumed up to the match and no further).** if the
+    first source element whose pipeline output satisfies the predicate is `x`, preceded by `A`,
+    then what follows `x` in the source has no influence on the evaluation: the closure invocations
+    are those of the source truncated right after `x` — `std`'s lazy `find` never asks the source
+    for another element (the oracle of the check counts the `next()` calls of an instrumented
+    source against exactly this) -/
+theorem C10_seq_consumes_up_to_the_match (P : Par) (q : Val → Bool) (A : List Val) (x : Val) (B : List Val)
+    (hsrc : P.src.items = A ++ x :: B)
+    (hA : ∀ a ∈ A, hitOf (P.elemQ q) a = false) (hx : hitOf (P.elemQ q) x = true) :
+    P.seqFindLog q = scanLog (P.elemQ q) (A ++ [x]) :=
+  Par.seqFind_independent_of_tail P q A x B hsrc hA hx
 
 /-- non-vacuity: an unbounded source (`len = none`, element i is i), a hit at 5, three workers:
     worker 0 finds it, publishes; the others stop after their held chunk -/
